@@ -16,13 +16,15 @@ def run(ctx):
                        "`or` forks succeed on the first head and fail only after all failed; WaitForHeads counts agree with the fork they belong to; "
                        "failure-handler push/pop is balanced on every path; plus the shape of normalize_element_groups.")
     ctx.decided = ["a: wait placement distinguishes and (wait on success) from or (wait on failure)", "b: WaitForHeads.number = number of labels of its fork; every forked branch ends in a Goto to the end label",
-                   "c: CatchPatternFailure push/pop balanced on every path of every template", "d: normaliser shape (or: concatenate, and: distribute every accumulated group over every group of the next operand)"]
+                   "c: CatchPatternFailure push/pop balanced on every path of every template", "d: normaliser shape (or: concatenate, and: distribute every accumulated group over every group of the next operand; nothing removed afterwards)",
+                   "f: the grammar gives `and` precedence over `or` in every family of group expressions (var / non-var specs, tests)"]
     ctx.not_decided = ["equivalence of normalize_element_groups with the formula for all formulas", "the head-merge dynamics at run time (which event arrives when)"]
     names, temps = C12.templates(ctx)
     a_b_wait(ctx, temps)
     c_catch(ctx, names, temps)
     d_normaliser(ctx)
     e_all_matching_heads(ctx)
+    f_precedence(ctx)
     d_members_copied(ctx)
     a_matchers_armed_before_start(ctx, temps)
     b_refs_started_in_head(ctx, temps)
@@ -208,6 +210,31 @@ def d_normaliser(ctx):
         ok = bool(inits) and dist
     ctx.check("C07.d.normaliser", EXP, fn.name, "and case", ok,
               "`and`: starting from one empty and-group, every accumulated group is combined with every group of the next operand by concatenating their members (distribution)", line=fn.lineno)
+    # nothing is removed afterwards: a member occurring twice in an and-group, or two and-groups that look alike, are different obligations of the formula
+    # (`X.Finished(a) and X.Finished(b)`, `$a.Finished() or $b.Finished()`); after the distribution the accumulated groups go to the result unfiltered
+    if ands:
+        b = ands[0]
+        outer = [f for f in ast.walk(b) if isinstance(f, ast.For) and src(f.iter) == "group['elements']"]
+        last = max([getattr(o, "end_lineno", o.lineno) for o in outer] or [0])
+        post = []
+        for n_ in ast.walk(b):
+            if getattr(n_, "lineno", 0) <= last:
+                continue
+            if isinstance(n_, (ast.Assign, ast.AugAssign)):
+                tg = n_.targets[0] if isinstance(n_, ast.Assign) else n_.target
+                base = tg
+                while isinstance(base, (ast.Subscript, ast.Attribute)):
+                    base = base.value
+                if isinstance(base, ast.Name) and base.id == "results":
+                    post.append(n_)
+            if isinstance(n_, ast.Call) and isinstance(n_.func, ast.Attribute) and n_.func.attr in ("remove", "pop", "clear", "sort", "reverse", "__delitem__") and src(n_.func.value).startswith("results"):
+                post.append(n_)
+            if isinstance(n_, ast.Delete) and any(src(t_).startswith("results") for t_ in n_.targets):
+                post.append(n_)
+        ctx.check("C07.d.normaliser", EXP, fn.name, "and case: nothing removed after the distribution", not post,
+                  "the and-groups built by the distribution reach the result unfiltered" if not post else
+                  "`%s` rewrites the accumulated and-groups after the distribution: members or groups that look alike are dropped, although they are separate obligations of the formula "
+                  "(`X.Finished(a) and X.Finished(b)` then completes on the first event alone)" % first_line(post[0], 70), line=(post[0].lineno if post else fn.lineno))
     fl = find_function(mod, "flatten_or_group")
     if fl is None:
         raise AnalysisError("flatten_or_group not found", anchor=EXP + "::flatten_or_group")
@@ -224,6 +251,55 @@ def d_normaliser(ctx):
 
 
 SM = "nemoguardrails/colang/v2_x/runtime/statemachine.py"
+LARK = "nemoguardrails/colang/v2_x/lang/grammar/colang.lark"
+
+
+def lark_rules(text):
+    """{rule name: body text} of a lark grammar (continuation lines joined, comments and priorities dropped)."""
+    rules, cur = {}, None
+    for raw in text.split("\n"):
+        line = re.sub(r"//.*$", "", raw).rstrip()
+        if not line.strip():
+            continue
+        m = re.match(r"^([?!]?[a-zA-Z_][a-zA-Z_0-9]*)(\.\d+)?\s*:\s*(.*)$", line)
+        if m and not line[0].isspace():
+            cur = m.group(1).lstrip("?!")
+            rules[cur] = m.group(3)
+        elif cur is not None and line[0].isspace():
+            rules[cur] += " " + line.strip()
+    return rules
+
+
+def f_precedence(ctx):
+    """`a or b and c` spells `a or (b and c)`: in every family of group expressions of the grammar (specs with and without a leading variable, and plain expressions) the
+    `or` level is built from `and` levels and the `and` level from atoms - the same in all families, so that a statement means the same with and without `await`."""
+    rules = lark_rules(ctx.tree.text(LARK))
+    fams = []
+    for name, body in rules.items():
+        if re.search(r"\b_OR\b", body) and not re.search(r"\b_AND\b", body):
+            ops = set(re.findall(r"[a-z_][a-z_0-9]*", re.sub(r"\b_[A-Z_]+\b", " ", body))) - {name}
+            fams.append((name, ops))
+    n = 0
+    for name, ops in fams:
+        # operands of the or-level: exactly one rule, and that rule is an and-level over something that is not the or-level
+        n += 1
+        and_rules = [o for o in ops if o in rules and re.search(r"\b_AND\b", rules[o]) and not re.search(r"\b_OR\b", rules[o])]
+        ok = len(ops) == 1 and len(and_rules) == 1
+        if ok:
+            aops = set(re.findall(r"[a-z_][a-z_0-9]*", re.sub(r"\b_[A-Z_]+\b", " ", rules[and_rules[0]]))) - {and_rules[0]}
+            ok = name not in aops
+        ctx.check("C07.f.precedence", LARK, name, "or-level over and-levels", ok,
+                  "`%s` combines `%s` with _OR, and that level combines atoms with _AND: `and` binds tighter than `or`" % (name, sorted(ops)[0] if ops else "?") if ok else
+                  "in `%s` the `or` level is not built from `and` levels (operands: %s): `a or b and c` is read as `(a or b) and c` in this family but as `a or (b and c)` in the "
+                  "others, so the same group completes at different moments depending on whether the statement has a keyword" % (name, sorted(ops)), line=None)
+    ctx.floor("C07.f.precedence", LARK, "or-levels of group expressions in the grammar", n, 3)
+    # every and-level must sit below an or-level (an and-level whose operands are or-levels is the inverted precedence)
+    for name, body in rules.items():
+        if re.search(r"\b_AND\b", body) and not re.search(r"\b_OR\b", body):
+            ops = set(re.findall(r"[a-z_][a-z_0-9]*", re.sub(r"\b_[A-Z_]+\b", " ", body))) - {name}
+            inv = [o for o in ops if o in rules and re.search(r"\b_OR\b", rules[o]) and not re.search(r"\b_AND\b", rules[o])]
+            ctx.check("C07.f.precedence", LARK, name, "and-level over atoms", not inv,
+                      "`%s` combines atoms" % name if not inv else "`%s` combines or-levels (%s) with _AND: `or` binds tighter than `and` here" % (name, inv), line=None)
 
 
 def e_all_matching_heads(ctx):
